@@ -1,6 +1,8 @@
 import MazeVerif.Lemmas.TreeAcyclic
 import MazeVerif.Lemmas.Percolation
 import MazeVerif.Lemmas.GenTie
+import MazeVerif.Lemmas.GenTotal
+import MazeVerif.Lemmas.WilsonFinish
 /-! # C01 — generators emit well-formed lattice graphs; DFS and Wilson emit spanning trees
 
 Models: `Model/Dfs.lean` (`gen_dfs` loop), `Model/Wilson.lean` (`gen_wilson`), `Model/Gen.lean` (start coordinate,
@@ -199,5 +201,247 @@ example : (genDfsTop 2 2 (defaultArgs 2 2 true) (some (1, 1)) [0, 0, 0, 0, 1, 0]
 example : (genWilsonTop 2 2 [0, 0, 0, 0, 1, 1, 0, 1, 0] 50).map (·.E.length) = some 3 := by decide
 example : percolate 2 2 (1, 1) [(0,2),(1,2),(0,2),(1,2),(0,2),(1,2),(0,2),(1,2)] = some [(0,0,0),(0,0,1),(1,0,0),(1,1,0)] := by decide
 example : Unconstrained 3 4 (defaultArgs 3 4 true) := C01_default_unconstrained 3 4 true
+
+/-! ## Termination (totality) of the generator models
+
+The models return `none` for three reasons: the iteration budget (`fuel`, a device of the model only), a missing draw,
+or a draw that does not index the list it selects from. `genDfsE` (`Model/DfsErr.lean`) is `genDfs` with the reason
+named (`C01_dfs_model_refines`). Bounds: `dfsFuel rows cols = 2*rows*cols` iterations and `dfsDraws rows cols =
+4*rows*cols` draws for the dfs loop (potential `2*(rows*cols - |visited|) + |stack|` drops every iteration, at most two
+draws per iteration), `compFuel rows cols = 5*rows*cols + 2` for `componentFrom`. All grids, all `Args`, all draw lists. -/
+
+/-- full termination statement (kept visible); proved as `C01_total_full_holds` -/
+def C01_total_full : Prop :=
+  ∀ (rows cols : Nat), 0 < rows → 0 < cols →
+    -- (1) dfs loop, any in-grid start: fuel is never the reason for a failure and is irrelevant above the bound;
+    --     with `dfsDraws` draws the only possible failure is an out-of-range draw; the all-zero draws are accepted
+    (∀ a start draws fuel fuel', inGrid rows cols start → dfsFuel rows cols ≤ fuel → dfsFuel rows cols ≤ fuel' →
+        genDfsE rows cols a start draws fuel ≠ .error .outOfFuel ∧
+        genDfs rows cols a start draws fuel = genDfs rows cols a start draws fuel') ∧
+    (∀ a start draws fuel, inGrid rows cols start → dfsFuel rows cols ≤ fuel → dfsDraws rows cols ≤ draws.length →
+        genDfs rows cols a start draws fuel = none → genDfsE rows cols a start draws fuel = .error .drawOutOfRange) ∧
+    (∀ a start draws fuel, inGrid rows cols start → dfsFuel rows cols ≤ fuel → dfsDraws rows cols ≤ draws.length →
+        (∀ d ∈ draws, d = 0) → ∃ s, genDfs rows cols a start draws fuel = some s) ∧
+    -- (2) gen_dfs / gen_prim with the start-coordinate draw
+    (∀ a given draws fuel fuel', (∀ c, given = some c → inGrid rows cols c) →
+        dfsFuel rows cols ≤ fuel → dfsFuel rows cols ≤ fuel' →
+        genDfsTop rows cols a given draws fuel = genDfsTop rows cols a given draws fuel' ∧
+        genPrimTop rows cols a given draws fuel = genPrimTop rows cols a given draws fuel') ∧
+    -- (3) component search and the two percolation generators: they return iff handed the numbers they ask for
+    (∀ E c fuel, inGrid rows cols c → compFuel rows cols ≤ fuel → ∃ V, componentFrom rows cols E c fuel = some V) ∧
+    (∀ p given draws rands fuel, (∀ c, given = some c → inGrid rows cols c) → compFuel rows cols ≤ fuel →
+        ((∃ o, genPercolationTop rows cols p given draws rands fuel = some o) ↔
+          (startCoord rows cols given draws ≠ none ∧ rands.length = 2 * rows * cols))) ∧
+    (∀ p a given draws rands fuel, (∀ c, given = some c → inGrid rows cols c) → compFuel rows cols ≤ fuel →
+        ((∃ o, genDfsPercolationTop rows cols p a given draws rands fuel = some o) ↔
+          ((∃ o, genDfsTop rows cols a given draws fuel = some o) ∧ rands.length = 2 * rows * cols))) ∧
+    -- (4) wilson: no totality (a walk may oscillate for ever), but every run can be finished
+    (∀ start, inGrid rows cols start →
+        ∃ draws s, ∀ fuel, rows + cols + rows * cols ≤ fuel → genWilson rows cols start draws fuel = some s)
+
+/-- `genDfsE` is `genDfs` with the reason of a failure named: same runs, same results -/
+theorem C01_dfs_model_refines (rows cols : Nat) (a : Args) (start : Cell) (draws : List Nat) (fuel : Nat) :
+    genDfs rows cols a start draws fuel = (genDfsE rows cols a start draws fuel).toOption :=
+  genDfs_eq_toOption rows cols a start draws fuel
+
+/-- TERMINATION of the gen_dfs loop: for every grid, every argument combination, every in-grid start and EVERY draw
+    list, `2*rows*cols` iterations are enough — the run never stops for lack of fuel, and above the bound neither the
+    result nor the kind of failure depends on the fuel. -/
+theorem C01_dfs_total {rows cols : Nat} {a : Args} {start : Cell} (hs : inGrid rows cols start) (draws : List Nat)
+    {fuel fuel' : Nat} (hf : dfsFuel rows cols ≤ fuel) (hf' : dfsFuel rows cols ≤ fuel') :
+    genDfsE rows cols a start draws fuel ≠ .error .outOfFuel ∧
+    genDfsE rows cols a start draws fuel = genDfsE rows cols a start draws fuel' ∧
+    genDfs rows cols a start draws fuel = genDfs rows cols a start draws fuel' :=
+  ⟨genDfsE_ne_outOfFuel hs hf, genDfsE_fuel_indep hs hf hf', genDfs_fuel_indep hs hf hf'⟩
+
+/-- a result obtained with ANY fuel is the result for every fuel above the bound: every "if the run returns `some`"
+    theorem of this file speaks about the one canonical run -/
+theorem C01_dfs_result_fuel_free {rows cols : Nat} {a : Args} {start : Cell} (hs : inGrid rows cols start)
+    {draws : List Nat} {fuel fuel' : Nat} {s : St} (h : genDfs rows cols a start draws fuel = some s)
+    (hf' : dfsFuel rows cols ≤ fuel') : genDfs rows cols a start draws fuel' = some s :=
+  genDfs_some_fuel hs h hf'
+
+/-- the loop consumes at most two draws per iteration: `4*rows*cols` draws never run out, for any fuel -/
+theorem C01_dfs_draws_suffice {rows cols : Nat} {a : Args} {start : Cell} (hs : inGrid rows cols start) {draws : List Nat}
+    (hd : dfsDraws rows cols ≤ draws.length) (fuel : Nat) :
+    genDfsE rows cols a start draws fuel ≠ .error .noDraw :=
+  genDfsE_ne_noDraw hs hd
+
+/-- with enough fuel and enough draws, the ONLY way the dfs model returns `none` is a draw outside the range the loop
+    asks for at that moment (`stack[i]` with `i ≥ len(stack)`, or `cands[k]` with `k ≥ len(cands)`) -/
+theorem C01_dfs_fails_only_out_of_range {rows cols : Nat} {a : Args} {start : Cell} (hs : inGrid rows cols start)
+    {draws : List Nat} {fuel : Nat} (hf : dfsFuel rows cols ≤ fuel) (hd : dfsDraws rows cols ≤ draws.length)
+    (h : genDfs rows cols a start draws fuel = none) :
+    genDfsE rows cols a start draws fuel = .error .drawOutOfRange := by
+  have h1 := genDfsE_ne_outOfFuel (a := a) (rng := draws) hs hf
+  have h2 := genDfsE_ne_noDraw (a := a) (fuel := fuel) hs hd
+  rw [genDfs_eq_toOption] at h
+  cases hE : genDfsE rows cols a start draws fuel with
+  | ok s => rw [hE] at h; simp [Except.toOption] at h
+  | error e =>
+    rw [hE] at h1 h2
+    cases e with
+    | outOfFuel => exact absurd rfl h1
+    | noDraw => exact absurd rfl h2
+    | drawOutOfRange => rfl
+
+/-- accepted draw lists exist for every grid and every argument combination: all draws `0`, at least `4*rows*cols` -/
+theorem C01_dfs_accepts_zero_draws {rows cols : Nat} {a : Args} {start : Cell} (hs : inGrid rows cols start)
+    {draws : List Nat} {fuel : Nat} (hf : dfsFuel rows cols ≤ fuel) (hd : dfsDraws rows cols ≤ draws.length)
+    (hz : ∀ d ∈ draws, d = 0) : ∃ s, genDfs rows cols a start draws fuel = some s :=
+  genDfs_zero hs hf hd hz
+
+/-- gen_dfs with its start-coordinate draw: fuel-independent above the bound, and a `none` above the bound is about
+    the draws (start draw refused / draw list exhausted / draw out of range), never about fuel -/
+theorem C01_dfsTop_total {rows cols : Nat} (hr : 0 < rows) (hc : 0 < cols) {a : Args} {given : Option Cell}
+    (hg : ∀ c, given = some c → inGrid rows cols c) (draws : List Nat) {fuel fuel' : Nat}
+    (hf : dfsFuel rows cols ≤ fuel) (hf' : dfsFuel rows cols ≤ fuel') :
+    genDfsTop rows cols a given draws fuel = genDfsTop rows cols a given draws fuel' ∧
+    (genDfsTop rows cols a given draws fuel = none →
+      startCoord rows cols given draws = none ∨
+      ∃ start d1, startCoord rows cols given draws = some (start, d1) ∧
+        (genDfsE rows cols a start d1 fuel = .error .noDraw ∨ genDfsE rows cols a start d1 fuel = .error .drawOutOfRange)) :=
+  ⟨genDfsTop_fuel_indep hr hc hg hf hf', genDfsTop_none_reason hr hc hg hf⟩
+
+theorem C01_dfsTop_accepts_zero_draws {rows cols : Nat} (hr : 0 < rows) (hc : 0 < cols) {a : Args} {given : Option Cell}
+    (hg : ∀ c, given = some c → inGrid rows cols c) {draws : List Nat} {fuel : Nat}
+    (hf : dfsFuel rows cols ≤ fuel) (hd : dfsDraws rows cols + 2 ≤ draws.length) (hz : ∀ d ∈ draws, d = 0) :
+    ∃ o, genDfsTop rows cols a given draws fuel = some o :=
+  genDfsTop_zero hr hc hg hf hd hz
+
+/-- the same for gen_prim (randomized stack) -/
+theorem C01_prim_total {rows cols : Nat} (hr : 0 < rows) (hc : 0 < cols) {a : Args} {given : Option Cell}
+    (hg : ∀ c, given = some c → inGrid rows cols c) (draws : List Nat) {fuel fuel' : Nat}
+    (hf : dfsFuel rows cols ≤ fuel) (hf' : dfsFuel rows cols ≤ fuel') :
+    genPrimTop rows cols a given draws fuel = genPrimTop rows cols a given draws fuel' :=
+  genDfsTop_fuel_indep hr hc hg hf hf'
+
+theorem C01_prim_accepts_zero_draws {rows cols : Nat} (hr : 0 < rows) (hc : 0 < cols) {a : Args} {given : Option Cell}
+    (hg : ∀ c, given = some c → inGrid rows cols c) {draws : List Nat} {fuel : Nat}
+    (hf : dfsFuel rows cols ≤ fuel) (hd : dfsDraws rows cols + 2 ≤ draws.length) (hz : ∀ d ∈ draws, d = 0) :
+    ∃ o, genPrimTop rows cols a given draws fuel = some o :=
+  genDfsTop_zero hr hc hg hf hd hz
+
+/-- `gen_connected_component_from`: always returns within `5*rows*cols + 2` iterations, whatever the connection list,
+    and above the bound the result does not depend on the fuel -/
+theorem C01_component_total {rows cols : Nat} (E : List Edge) {c : Cell} (hc : inGrid rows cols c) {fuel fuel' : Nat}
+    (hf : compFuel rows cols ≤ fuel) (hf' : compFuel rows cols ≤ fuel') :
+    (∃ V, componentFrom rows cols E c fuel = some V) ∧
+    componentFrom rows cols E c fuel = componentFrom rows cols E c fuel' :=
+  ⟨componentFrom_total E hc hf, componentFrom_fuel_indep E hc hf hf'⟩
+
+/-- gen_percolation returns exactly when it gets the random numbers it asks for (an accepted start draw and a
+    `2 × rows × cols` array), and fuel above the bound is irrelevant -/
+theorem C01_percolation_total {rows cols : Nat} (hr : 0 < rows) (hc : 0 < cols) {p : Nat × Nat} {given : Option Cell}
+    (hg : ∀ c, given = some c → inGrid rows cols c) (draws : List Nat) (rands : List (Nat × Nat)) {fuel fuel' : Nat}
+    (hf : compFuel rows cols ≤ fuel) (hf' : compFuel rows cols ≤ fuel') :
+    ((∃ o, genPercolationTop rows cols p given draws rands fuel = some o) ↔
+      (startCoord rows cols given draws ≠ none ∧ rands.length = 2 * rows * cols)) ∧
+    genPercolationTop rows cols p given draws rands fuel = genPercolationTop rows cols p given draws rands fuel' :=
+  ⟨genPercolationTop_isSome hr hc hg hf, genPercolationTop_fuel_indep hr hc hg hf hf'⟩
+
+/-- gen_dfs_percolation returns exactly when its dfs part returns and the random array has the right size -/
+theorem C01_dfsperc_total {rows cols : Nat} (hr : 0 < rows) (hc : 0 < cols) {p : Nat × Nat} {a : Args} {given : Option Cell}
+    (hg : ∀ c, given = some c → inGrid rows cols c) (draws : List Nat) (rands : List (Nat × Nat)) {fuel fuel' : Nat}
+    (hf : compFuel rows cols ≤ fuel) (hf' : compFuel rows cols ≤ fuel') :
+    ((∃ o, genDfsPercolationTop rows cols p a given draws rands fuel = some o) ↔
+      ((∃ o, genDfsTop rows cols a given draws fuel = some o) ∧ rands.length = 2 * rows * cols)) ∧
+    genDfsPercolationTop rows cols p a given draws rands fuel = genDfsPercolationTop rows cols p a given draws rands fuel' :=
+  ⟨genDfsPercolationTop_isSome hr hc hg hf, genDfsPercolationTop_fuel_indep hr hc hg hf hf'⟩
+
+theorem C01_dfsperc_accepts_zero_draws {rows cols : Nat} (hr : 0 < rows) (hc : 0 < cols) {p : Nat × Nat} {a : Args}
+    {given : Option Cell} (hg : ∀ c, given = some c → inGrid rows cols c) {draws : List Nat} {rands : List (Nat × Nat)}
+    {fuel : Nat} (hf : compFuel rows cols ≤ fuel) (hd : dfsDraws rows cols + 2 ≤ draws.length) (hz : ∀ d ∈ draws, d = 0)
+    (hrn : rands.length = 2 * rows * cols) :
+    ∃ o, genDfsPercolationTop rows cols p a given draws rands fuel = some o :=
+  (genDfsPercolationTop_isSome hr hc hg hf).mpr
+    ⟨genDfsTop_zero hr hc hg (Nat.le_trans (dfsFuel_le_compFuel rows cols) hf) hd hz, hrn⟩
+
+/-- inner loop-erased walk of gen_wilson: from EVERY state (non-empty path, tip in the grid, some visited in-grid
+    cell `v`) at most `mdist tip v` suitable draws end the walk, whatever follows them in the draw list -/
+theorem C01_wilson_walk_can_finish {rows cols : Nat} {vis : List Cell} {v : Cell} (hv : v ∈ vis) (hvg : inGrid rows cols v)
+    {path : List Cell} (hne : path ≠ []) (hg : inGrid rows cols path.getLast!) :
+    ∃ (ds : List Nat) (path' : List Cell), ds.length ≤ mdist path.getLast! v ∧ path'.getLast! ∈ vis ∧
+      ∀ (rest : List Nat) (fuel : Nat), mdist path.getLast! v + 1 ≤ fuel →
+        walk rows cols vis fuel path (ds ++ rest) = some (path', rest) := by
+  obtain ⟨ds, path', h1, _, _, h2, h3⟩ := walk_can_finish hv hvg _ path hne hg rfl
+  exact ⟨ds, path', h1, h2, h3⟩
+
+/-- outer loop of gen_wilson: from EVERY state with a visited in-grid cell there is a draw list that completes the run -/
+theorem C01_wilson_outer_can_finish {rows cols : Nat} (vis : List Cell) (E : List Edge)
+    (hv : ∃ v ∈ vis, inGrid rows cols v) :
+    ∃ (ds : List Nat) (s' : WSt), ∀ fuel, rows + cols + (unvisited rows cols vis).length ≤ fuel →
+      outer rows cols fuel { vis := vis, E := E, rng := ds } = some s' :=
+  outer_can_finish _ vis E hv (Nat.le_refl _)
+
+/-- in the middle of a run (a walk in progress inside the outer loop): some draws end the walk and some more complete
+    the outer loop from the state the walk leaves -/
+theorem C01_wilson_midrun_can_finish {rows cols : Nat} {vis : List Cell} (E : List Edge)
+    (hv : ∃ v ∈ vis, inGrid rows cols v) {path : List Cell} (hne : path ≠ []) (hg : inGrid rows cols path.getLast!) :
+    ∃ (dw dr : List Nat) (path' : List Cell) (s' : WSt), ∀ fuel, rows + cols + rows * cols ≤ fuel →
+      walk rows cols vis fuel path (dw ++ dr) = some (path', dr) ∧
+      outer rows cols fuel { vis := vis ++ path'.dropLast, E := E ++ pathEdges path', rng := dr } = some s' :=
+  midrun_can_finish E hv hne hg
+
+/-- gen_wilson has non-terminating draw sequences, so it has no totality theorem; but for every grid and every in-grid
+    start there IS a draw list that finishes the run (and by `C01_wilson_spanning` the result is a spanning tree) -/
+theorem C01_wilson_can_finish {rows cols : Nat} {start : Cell} (hs : inGrid rows cols start) :
+    ∃ (draws : List Nat) (s : WSt), ∀ fuel, rows + cols + rows * cols ≤ fuel →
+      genWilson rows cols start draws fuel = some s := by
+  obtain ⟨ds, s', h⟩ := outer_can_finish (rows := rows) (cols := cols) (rows * cols) [start] []
+    ⟨start, by simp, hs⟩ (by
+      exact unvisited_length_le rows cols [start])
+  exact ⟨ds, s', fun fuel hf => h fuel hf⟩
+
+/-- the same with the start-coordinate draw in front -/
+theorem C01_wilsonTop_can_finish {rows cols : Nat} (hr : 0 < rows) (hc : 0 < cols) :
+    ∃ (draws : List Nat) (s : WSt), ∀ fuel, rows + cols + rows * cols ≤ fuel →
+      genWilsonTop rows cols draws fuel = some s := by
+  have hs : inGrid rows cols (((0 : Nat) : Int), ((0 : Nat) : Int)) := by simp [inGrid]; omega
+  obtain ⟨ds, s, h⟩ := C01_wilson_can_finish hs
+  refine ⟨0 :: 0 :: ds, s, fun fuel hf => ?_⟩
+  have h1 : 0 < max (rows - 1) 1 ∧ 0 < max (cols - 1) 1 := by omega
+  simp only [genWilsonTop, randomStart, h1, and_self, if_true]
+  exact h fuel hf
+
+theorem C01_total_full_holds : C01_total_full := by
+  intro rows cols hr hc
+  refine ⟨fun a start draws fuel fuel' hs hf hf' => ⟨(C01_dfs_total hs draws hf hf').1, (C01_dfs_total hs draws hf hf').2.2⟩,
+    fun a start draws fuel hs hf hd h => C01_dfs_fails_only_out_of_range hs hf hd h,
+    fun a start draws fuel hs hf hd hz => C01_dfs_accepts_zero_draws hs hf hd hz,
+    fun a given draws fuel fuel' hg hf hf' => ⟨(C01_dfsTop_total hr hc hg draws hf hf').1, C01_prim_total hr hc hg draws hf hf'⟩,
+    fun E c fuel hcg hf => (C01_component_total E hcg hf hf).1,
+    fun p given draws rands fuel hg hf => (C01_percolation_total hr hc hg draws rands hf hf).1,
+    fun p a given draws rands fuel hg hf => (C01_dfsperc_total hr hc hg draws rands hf hf).1,
+    fun start hs => C01_wilson_can_finish hs⟩
+
+/-! ### non-vacuity of the termination theorems -/
+-- fuel does matter below the bound (2x2, no cell limit: 5 iterations are too few); the bound `2*rows*cols` is attained on 1x1
+example : (match genDfsE 2 2 ⟨5, 100, true, false⟩ (0, 0) (List.replicate 16 0) 5 with
+    | .error e => some e | .ok _ => none) = some RunErr.outOfFuel := by decide
+example : (match genDfsE 1 1 ⟨5, 100, true, false⟩ (0, 0) [] 1 with
+    | .error e => some e | .ok _ => none) = some RunErr.outOfFuel := by decide
+example : (genDfs 1 1 ⟨5, 100, true, false⟩ (0, 0) [] 2).map (·.visited) = some [(0, 0)] := by decide
+example : (genDfs 2 2 ⟨5, 100, true, false⟩ (0, 0) (List.replicate 16 0) 8).map (·.visited.length) = some 4 := by decide
+example : dfsFuel 2 2 = 8 ∧ dfsDraws 2 2 = 16 ∧ compFuel 2 2 = 22 := by decide
+-- the three failure kinds all occur
+example : (match genDfsE 2 2 (defaultArgs 2 2 false) (0, 0) [0] 8 with
+    | .error e => some e | .ok _ => none) = some RunErr.noDraw := by decide
+example : (match genDfsE 2 2 (defaultArgs 2 2 false) (0, 0) (List.replicate 16 7) 8 with
+    | .error e => some e | .ok _ => none) = some RunErr.drawOutOfRange := by decide
+-- zero draws, randomized stack, random start
+example : (genPrimTop 2 3 (defaultArgs 2 3 true) none (List.replicate 26 0) 12).map (·.visited.length) = some 6 := by decide
+example : (genDfsTop 2 3 ⟨4, 3, false, false⟩ (some (1, 2)) (List.replicate 26 0) 12).map (·.visited.length) = some 2 := by decide
+example : (componentFrom 2 2 [(0, 0, 0), (1, 0, 0)] (0, 0) 22).map (·.length) = some 3 := by decide
+example : (genPercolationTop 2 2 (1, 2) none [0, 0] [(0,2),(1,2),(0,2),(1,2),(1,2),(1,2),(1,2),(1,2)] 22).map (·.visited) = some [(0, 0), (1, 0)] := by decide
+example : (genDfsPercolationTop 2 2 (1, 2) (defaultArgs 2 2 false) none (List.replicate 18 0)
+    [(0,2),(1,2),(0,2),(1,2),(0,2),(1,2),(0,2),(1,2)] 22).map (·.visited.length) = some 4 := by decide
+-- a wilson walk state two steps away from the visited cell, and a whole run
+example : walk 3 3 [(0, 0)] 3 [(1, 1)] [3, 1, 9] = some ([(1, 1), (0, 1), (0, 0)], [9]) := by decide
+-- a non-terminating draw sequence exists (so there is no totality theorem): stepping right/left for ever on 1x3
+example : ∀ fuel ∈ List.range 12, walk 1 3 [(0, 0)] fuel [(0, 2)] ((List.replicate 12 [0, 0]).flatten) = none := by decide
+example : (genDfs 2 3 (defaultArgs 2 3 false) (0, 0) (List.replicate 24 0) 3) = none ∧
+    (genDfs 2 3 (defaultArgs 2 3 false) (0, 0) (List.replicate 24 0) 12).map (·.visited.length) = some 6 := by decide
+example : (genWilson 2 2 (0, 0) [0, 1, 0, 1, 0, 1] 8).map (·.E.length) = some 3 := by decide
 
 end MZ
